@@ -481,7 +481,7 @@ func (x *Exec) applyContract(fr *Frame, ci *calleeInfo, c *ssa.CallCommon, args 
 	if rt.Len() == 1 {
 		post.vars["result"] = res[0]
 	}
-	if rt.Len() > 0 && isErrorType(rt.At(rt.Len()-1).Type()) {
+	if _, clash := env.vars["err"]; !clash && rt.Len() > 0 && isErrorType(rt.At(rt.Len()-1).Type()) {
 		post.vars["err"] = res[rt.Len()-1]
 	}
 	for _, e := range ct.Ensures {
@@ -495,6 +495,13 @@ func (x *Exec) applyContract(fr *Frame, ci *calleeInfo, c *ssa.CallCommon, args 
 		for _, p := range fr.contract.Points {
 			if p.CallName == sn && p.CallOrd == k {
 				cenv := x.baseEnv(fr, st)
+				// the results of the call are visible as ret / ret0, ret1, ...
+				for i, r := range res {
+					cenv.vars[fmt.Sprintf("ret%d", i)] = r
+				}
+				if len(res) == 1 {
+					cenv.vars["ret"] = res[0]
+				}
 				for j, a := range p.Asserts {
 					g := x.evalClause(cenv, a)
 					x.vc.oblige("point", fmt.Sprintf("point[after %s#%d][%d]", sn, k, j), reach, g, pos, a.Src)
